@@ -154,6 +154,7 @@ func (cx *Connection) prefetch() (err error) {
 			tmp = bufPool.Get().([]byte)
 			tmp = tmp[:prefetchChunkSize]
 			defer bufPool.Put(tmp)
+			defer verifBufRelease(tmp)
 
 			n, err = cx.Conn.Read(tmp)
 			cx.buf = append(cx.buf, tmp[:n]...)
